@@ -140,6 +140,11 @@ def eq(
 ) -> bool:
     x1, y1, z1 = p1
     x2, y2, z2 = p2
+    # Any triple with z == 0 (including the (0, 0, 0) that repeated doubling of the
+    # point at infinity produces) is the point at infinity; cross-multiplication
+    # would make it compare equal to every point.
+    if is_inf(p1) or is_inf(p2):
+        return is_inf(p1) and is_inf(p2)
     return x1 * z2 == x2 * z1 and y1 * z2 == y2 * z1
 
 
